@@ -118,12 +118,16 @@ def run_case(c, R):
         if c['_idx'] % 6 == 5:
             # the payload sits where the format says for EVERY header length: here exactly k*512 bytes (no padding even with DIRECTIO)
             hd = {'DIRECTIO': 1}
-            base = 16 + (1 if cfg['nants'] > 1 else 0) + 1 + 1          # configuration cards + DIRECTIO + END
+            base = 15 + (1 if cfg['nants'] > 1 else 0) + 1 + 1          # configuration cards (+ NANTS) + DIRECTIO + END
             for k_ in range((-base) % 32):
                 hd[f'FILL{k_:03d}'] = k_
             R.bucket('header:512-aligned+directio')
         rec = work_raw.do_record(stg, cfg, stem, header_dict=hd)
         rvb = rec['rvb']
+        if hd is not None:
+            with open(rec['files'][0], 'rb') as fh_:
+                first_ = fh_.read(80 * 200)
+            R.check(first_.find(b'END' + b' ' * 77) % 512 == 512 - 80, 'harness:header-not-aligned-as-intended')
         window = np.array(rvb.filterbank[0][0].window, dtype=float)
         calls_per_block = len(rec['delivered']) / cfg['nblocks']
         if cfg['mult'] % max(1, int(round(calls_per_block))) or cfg['nsub'] > cfg['mult']:
